@@ -48,7 +48,7 @@ TraceNext ==
 TraceSpec == TraceInit /\ [][TraceNext]_vars
 
 \* ---- L2: conformance of one recorded event with the step machine ----------
-PrevSt == IF Ev(l - 1).ph = "recorded" THEN TickF(Ev(l - 1).st) ELSE Ev(l - 1).st
+PrevSt == IF Ev(l - 1).ph = "recorded" THEN TickF(Opts, Ev(l - 1).st) ELSE Ev(l - 1).st
 AfterUpdate == l > 1 /\ Ev(l - 1).ph = "updated"
 Base == IF l > 0 /\ Ev(l).base > 0 THEN Ev(Ev(l).base).st ELSE Ev(l).st
 
@@ -136,7 +136,7 @@ SimRunClauses ==
          ELSE <<>>)
      \o (IF Len(Run.ev) = 0 THEN <<>> ELSE
          On("C08", LET spec == FoldedLogs(EmptyLogs(Cfg))
-                  IN << <<"C08.L.live-time", fin.lg.time = Len(PerformedStates)>>,
+                  IN << <<"C08.L.live-time", fin.lg.time = Len(PerformedStates) * Unit(Opts)>>,
                         <<"C08.L.live-header", fin.lg.status = fin.st.status /\ fin.lg.mode = fin.st.mode
                                                /\ fin.lg.time = fin.st.time>> >>
                      \o [i \in DOMAIN LogFieldsToCompare |->
